@@ -130,7 +130,7 @@ deriving Repr
 
 inductive SEv where
   | conn (ca : Nat) | tick (d : Nat) | data (ca : Nat) | req (ca : Nat) | req10 (ca : Nat) | cap (ca k : Nat)
-  | wind (t : Nat) | svc
+  | wind (t : Nat) | svc | settmo (t : Nat)
 deriving Repr
 
 def onConn (ca : Nat) (e : Ev) (cs : List (Nat × IC)) : List (Nat × IC) :=
@@ -144,6 +144,7 @@ def Srv.step (s : Srv) : SEv → Srv
   | .req10 ca => { s with conns := onConn ca (.arrive .req10) s.conns }
   | .cap ca k => { s with conns := onConn ca (.cap k) s.conns }
   | .wind t => { s with now := t, conns := s.conns.map fun (k, c) => (k, Idle.step c (.wind t)) }
+  | .settmo t => { s with tymeout := t }
   | .svc =>
     let fresh := s.waiting.map fun ca => (ca, accept s.now s.tymeout s.resp)
     { s with waiting := [], conns := (s.conns ++ fresh).map fun (k, c) => (k, Idle.svc c) }
